@@ -222,6 +222,12 @@ func (t *Task) Schedule(executeAt time.Time) *Task {
 	if executeAt.IsZero() {
 		t.removeFromQueues()
 	} else {
+		// The schedule entry now stands for the given time, not for the
+		// expiry of the max delay of a queued task anymore.
+		scheduleLock.Lock()
+		t.overtime = false
+		scheduleLock.Unlock()
+
 		t.addToSchedule(false)
 	}
 	return t
